@@ -22,7 +22,13 @@ def transform(case):
         n = np.asarray(case["reflect"], dtype=float)
         n = n / np.linalg.norm(n)
         R = R @ (np.eye(3) - 2 * np.outer(n, n))
-    return R, np.asarray(case.get("translate", [0, 0, 0]), dtype=float)
+    t = np.asarray(case.get("translate", [0, 0, 0]), dtype=float)
+    if case.get("center") and case.get("angle"):
+        # the rotation (not the reflection) is about an axis through `center`
+        c = np.asarray(case["center"], dtype=float)
+        Rrot = rot_matrix(case.get("axis", [0, 0, 1]), case.get("angle", 0.0))
+        t = t + c - Rrot @ c
+    return R, t
 
 
 def move_mesh(mesh, R, t):
@@ -40,7 +46,7 @@ def api_steps(case):
     if case.get("reflect"):
         steps.append(("Symmetry", ((0.0, 0.0, 0.0), tuple(float(v) for v in case["reflect"]))))
     if case.get("angle"):
-        steps.append(("Rotate", (float(case["angle"]), (0.0, 0.0, 0.0), tuple(float(v) for v in case.get("axis", [0, 0, 1])))))
+        steps.append(("Rotate", (float(case["angle"]), tuple(float(v) for v in case.get("center", [0, 0, 0])), tuple(float(v) for v in case.get("axis", [0, 0, 1])))))
     if case.get("translate"):
         steps.append(("Translate", tuple(float(v) for v in case["translate"])))
     return steps
@@ -304,6 +310,125 @@ def run_beam(case):
                        "rot_moved_raw": w2[i].tolist(), "det_R": det}}
 
 
+# ------------------------------------------------------------------------------ hyperelastic
+HO_PARAMS = dict(C0=19.0 / 2 / 8.023, C1=8.023, C2=6157.0 / 2 / 16.026, C3=16.026, C4=827.0 / 2 / 11.12, C5=11.12,
+                 C6=72.0 / 2 / 11.436, C7=11.436, K=1e4, Mu1=0.0, Mu2=0.0, ks=100.0)
+
+
+def hyper_material(case, mesh0, Q):
+    """material of the (moved by Q) problem; fibre / sheet directions are defined on the REFERENCE
+    placement (constants or per-Gauss-point fields) and moved with the body"""
+    from EasyFEA import Models, MatrixType
+    from EasyFEA.FEM import FeArray
+    dim, law = case["dim"], case["law"]
+    H = Models.HyperElastic
+    if law == "neo":
+        return H.NeoHookean(dim, K=case.get("K", 50.0))
+    if law == "mooney":
+        return H.MooneyRivlin(dim, K1=case.get("K1", 30.0), K2=case.get("K2", 12.0), K=case.get("K", 200.0))
+    if law == "svk":
+        return H.SaintVenantKirchhoff(dim, lmbda=case.get("lmbda", 60.0), mu=case.get("mu", 40.0))
+    if law == "ho":
+        X = np.asarray(mesh0.groupElem.Get_GaussCoordinates_e_pg(MatrixType.rigi))
+        if case.get("fibres", "field") == "field":
+            ang = np.deg2rad(-50 + 100 * X[..., 0] / 2.0)
+            tilt = np.deg2rad(case.get("tilt", 35.0) * (0.5 + X[..., 1]))
+        else:
+            ang = np.full(X.shape[:2], np.deg2rad(case.get("angle0", 25.0)))
+            tilt = np.full(X.shape[:2], np.deg2rad(case.get("tilt", 35.0)))
+        T1 = np.stack([np.cos(ang) * np.cos(tilt), np.sin(ang) * np.cos(tilt), np.sin(tilt)], -1)   # out of the xy plane
+        T2 = np.stack([-np.sin(ang), np.cos(ang), np.zeros_like(ang)], -1)                           # orthogonal to T1
+        if case.get("fibres", "field") == "const_vector":
+            return H.HolzapfelOgden(dim, T1=Q @ T1[0, 0], T2=Q @ T2[0, 0], **HO_PARAMS)
+        return H.HolzapfelOgden(dim, T1=FeArray.asfearray(T1 @ Q.T), T2=FeArray.asfearray(T2 @ Q.T), **HO_PARAMS)
+    raise ValueError(law)
+
+
+def run_hyper(case):
+    import contextlib
+    import io
+    from EasyFEA import Mesher, Simulations
+    from EasyFEA.Geoms import Domain, Point
+    dim = case["dim"]
+    L, h, b = 2.0, 1.0, 1.0
+    mesher = Mesher()
+    if dim == 2:
+        mesh0 = mesher.Mesh_2D(Domain(Point(0, 0), Point(L, h), case.get("meshSize", 0.5)), [], case["elemType"])
+    else:
+        mesh0 = mesher.Mesh_Extrude(Domain(Point(0, 0), Point(L, h), case.get("meshSize", 0.5)), [], [0, 0, b], [2], case["elemType"])
+    x0 = mesh0.coord.copy()
+    n0 = np.where(np.abs(x0[:, 0]) < 1e-9)[0]
+    nL = np.where(np.abs(x0[:, 0] - L) < 1e-9)[0]
+    R, t = transform(case)
+    mesh1 = mesh0.copy()
+    motion = {}
+    if case.get("build", "api") == "api":
+        move_mesh_api(mesh1, case, motion)
+    else:
+        move_mesh(mesh1, R, t)
+    d0 = np.asarray(case.get("d", [0.05 * L, -0.03 * L, 0.02 * L if dim == 3 else 0.0]), dtype=float)
+    v0 = np.asarray(case.get("v0", [0.0, 0.0, 0.0]), dtype=float)
+
+    def solve(mesh, Q):
+        mat = hyper_material(case, mesh0, Q)
+        simu = Simulations.HyperElastic(mesh, mat, absTol=case.get("absTol", 1e-10), maxIter=60, verbosity=False)
+        unknowns = simu.Get_unknowns()
+        simu.add_dirichlet(n0, [0.0] * dim, unknowns)
+        simu.add_dirichlet(nL, [float(x) for x in (Q @ d0)[:dim]], unknowns)
+        simu.Solve()
+        out = [(simu.displacement.reshape(-1, dim).copy(), float(simu._Calc_W()))]
+        if case.get("dynamic"):
+            simu.Bc_Init()
+            simu.add_dirichlet(n0, [0.0] * dim, unknowns)
+            simu.rho = 1.0e-3
+            simu.Solver_Set_Hyperbolic_Algorithm(dt=2e-3)
+            simu.Solve()
+            out.append((simu.displacement.reshape(-1, dim).copy(), float(simu._Calc_W())))
+        return out
+
+    def energy_of(mesh, Q, u):
+        mat = hyper_material(case, mesh0, Q)
+        simu = Simulations.HyperElastic(mesh, mat, verbosity=False)
+        simu._Set_solutions(simu.problemType, np.ascontiguousarray(u).ravel())
+        return float(simu._Calc_W())
+
+    Rd = R[:dim, :dim]
+    # (a) no solve: stored energy of a prescribed smooth deformation and of the rigidly moved state
+    G = np.array([[0.04, -0.03, 0.02], [0.01, 0.05, -0.02], [-0.03, 0.02, 0.03]])[:dim, :dim]
+    Xr = x0[:, :dim]
+    uA = Xr @ G.T + 0.02 * (Xr ** 2)[:, ::-1]
+    with contextlib.redirect_stdout(io.StringIO()):
+        WA0 = energy_of(mesh0, np.eye(3), uA)
+        WA1 = energy_of(mesh1, R, uA @ Rd.T)
+    res = {"err_W_prescribed_state": abs(WA1 - WA0) / abs(WA0), "W_prescribed": [WA0, WA1]}
+    errs = [res["err_W_prescribed_state"], motion.get("err", 0.0)]
+    # (b) Newton solves (static, optionally one dynamic step) of the original and the moved problem
+    try:
+        with contextlib.redirect_stdout(io.StringIO()):
+            ref = solve(mesh0, np.eye(3))
+            W_moved = energy_of(mesh1, R, ref[0][0] @ Rd.T)
+            new = solve(mesh1, R)
+    except AssertionError as ex:
+        if res["err_W_prescribed_state"] > 1e-8:
+            res["err"] = float(res["err_W_prescribed_state"])
+            res["what"] = "hyperelastic: stored energy of a prescribed deformation vs the same state rigidly moved (the Newton solve also failed: %s)" % ex
+            return res
+        raise
+    res.update({"err_W_moved_state": abs(W_moved - ref[0][1]) / abs(ref[0][1]), "W_ref": ref[0][1], "W_moved_state": W_moved})
+    errs.append(res["err_W_moved_state"])
+    for name, (u0, W0), (u1, W1) in zip(["static", "dynamic"], ref, new):
+        eu = float(np.linalg.norm(u1 - u0 @ Rd.T) / np.linalg.norm(u0))
+        eW = abs(W1 - W0) / abs(W0)
+        res["err_u_" + name], res["err_W_" + name] = eu, eW
+        res["W_" + name] = [W0, W1]
+        errs += [eu, eW]
+    res["err"] = float(max(errs))
+    res["what"] = "hyperelastic: displacement transformed back, stored energy of the moved reference state, energies after the solve" + (" and after one dynamic step" if case.get("dynamic") else "")
+    if motion.get("err", 0.0) > 1e-12:
+        res["motion"] = motion
+    return res
+
+
 def run_Bcheck(case):
     """per-node block of Get_B_e_pg vs the transcription used in C10_continuum.v"""
     from EasyFEA.FEM._group_elem import GroupElemFactory
@@ -341,6 +466,8 @@ def run_case(case):
             return run_Bcheck(case)
         if case["kind"] == "motion":
             return run_motion(case)
+        if case["kind"] == "hyper":
+            return run_hyper(case)
         return {"raises": "unknown kind"}
     except Exception as ex:  # noqa
         import traceback
